@@ -618,16 +618,45 @@ def do_replay(pid, path):
     p = path if os.path.isabs(path) else os.path.join(OUT, path)
     data = json.load(open(p))
     if data.get('kind') == 'obligation':
-        # re-check the obligations and lanes
-        prep = prepare(pid, need_driver=bool(REGISTRY[pid]['lanes']))
-        print('obligation replay: build_ok=%s driver_ok=%s' % (prep['build_ok'], prep['driver_ok']))
-        if not prep['build_ok']:
-            print(first_error(prep['log']))
-            print('VIOLATION property=%s replay=%s no-failing-input-found' % (pid, path))
+        # a broken obligation / lane: replaying means running the check again with the recorded seed and tier
+        import tempfile
+        import shutil
+        os.makedirs(os.path.join(ROOT, '.work'), exist_ok=True)
+        tmp = tempfile.mkdtemp(prefix='replay_', dir=os.path.join(ROOT, '.work'))
+        try:
+            rc, out = sh([sys.executable, '-B', os.path.abspath(__file__), pid, '--tier', data.get('tier', 'quick')],
+                         env=dict(os.environ, VERIF_SEED=str(data.get('seed', 0)), VERIF_OUT=tmp), timeout=3600)
+        finally:
+            shutil.rmtree(tmp, ignore_errors=True)
+        lines = [l for l in out.splitlines() if l.startswith(pid + ':') or l.startswith('VIOLATION')]
+        print('\n'.join(lines[:6]))
+        if rc == 1:
+            nf = ' no-failing-input-found' if any('no-failing-input-found' in l for l in lines) else ''
+            print('VIOLATION property=%s replay=%s%s' % (pid, path, nf))
             return 1
-        print('obligations build on the current tree (run the check for the lanes)')
-        return 0
+        print('%s: the obligations and lanes check on the current tree' % pid)
+        return 0 if rc == 0 else 2
     v = data['violation']
+    if (v.get('replay') or {}).get('fn') not in oracles.REPLAYS:
+        # the case cannot be isolated from what ran before it in its process (a history, a catalogue sweep, a thread
+        # run): replaying it means running the same search again, with the recorded seed and tier
+        import tempfile
+        os.makedirs(os.path.join(ROOT, '.work'), exist_ok=True)
+        tmp = tempfile.mkdtemp(prefix='replay_', dir=os.path.join(ROOT, '.work'))
+        try:
+            rc, out = sh([sys.executable, '-B', os.path.abspath(__file__), pid, '--tier', data.get('tier', 'quick')],
+                         env=dict(os.environ, VERIF_SEED=str(data.get('seed', 0)), VERIF_OUT=tmp), timeout=3600)
+        finally:
+            import shutil
+            shutil.rmtree(tmp, ignore_errors=True)
+        lines = [l for l in out.splitlines() if l.startswith(pid + ':') or l.startswith('VIOLATION')]
+        if rc == 1 and any(l.startswith('VIOLATION') and 'no-failing-input-found' not in l for l in lines):
+            print('\n'.join(lines[:4]))
+            print('%s: replay (the recorded search, seed %s) fails on the current tree' % (pid, data.get('seed', 0)))
+            print('VIOLATION property=%s replay=%s' % (pid, path))
+            return 1
+        print('%s: replay (the recorded search, seed %s) passes on the current tree' % (pid, data.get('seed', 0)))
+        return 0
     bad = oracles.replay(v['replay'])
     if bad:
         print('%s: replay fails: expected %s, actual %s' % (pid, str(bad[0])[:300], str(bad[1])[:300]))
